@@ -792,6 +792,14 @@ def protocol_violations(paths):
                 continue
             if not any(e[0] == "clone_from" and e[1] == ("W", k, "pattern") and e[2] == ("self", "pattern") and lock_pos.get(k, 0) < i < s for i, e in enumerate(ev)):
                 add("C19.pattern-handover", "Nucleo::<T>::tick|flat|no-pattern-copy", "a run is started without copying the matcher's pattern into the worker first", known)
+        # the phase that raises `canceled` blocks on the worker lock
+        for i, e in enumerate(ev):
+            if e[0] == "atomic" and e[1] == "canceled" and e[2] == ("const", 1):
+                nxt_lock = next((x for x in ev[i:] if x[0] in ("lock", "trylock")), None)
+                if nxt_lock is not None and nxt_lock[0] == "trylock":
+                    for r in ("C19.cancel-lock", "C12.stream-switch"):
+                        add(r, "Nucleo::<T>::tick|flat|cancel-trylock", "after raising `canceled` tick makes a lock attempt that can time out: the cancellation's reason (pattern status, "
+                            "restart) is consumed without the worker having been switched over", known)
         # cancellation is followed by its own phase
         for i, e in enumerate(ev):
             if e[0] == "atomic" and e[1] == "canceled" and e[2] == ("const", 1):
